@@ -86,8 +86,9 @@ def first(a_set):
 def _ensure_multiline_string_triple_quoted(value):
     # converting the value to a string
     s = str(value)
-    # Escaping any double quote
-    s = s.replace('"', '\\"')
+    # Escaping backslashes first, then double quotes and carriage returns
+    # (PROV-N strings follow the SPARQL escape rules)
+    s = s.replace("\\", "\\\\").replace('"', '\\"').replace("\r", "\\r")
     if "\n" in s:
         return '"""%s"""' % s
     else:
